@@ -1052,6 +1052,20 @@ def canary(C):
     return [{"rule": "C13.R14", "fired": ["%s" % b.path for b, _, _ in bad], "expect_min": 1, "expect_absent": ["tree_balanced", "collect"]}]
 
 
+def rule_r15(F):
+    """Registered `use a::b::c` paths are walked like script paths: every segment after the first is looked up among the members of
+    the item found for the segment before it, never again in the scope the `use` is written in (shared with C18.I1: the accumulator
+    of the walk feeds the next lookup).  Looked up at the root, `use outer::inner::answer` binds `inner.answer` when the root has an
+    `inner` of its own."""
+    from . import c18
+    r = c18.rule_i1(F)
+    r.rule = "C13.R15"
+    r.desc = "registered use-paths: each later segment is looked up in the scope of the previous segment (accumulator feedback), not in the scope of the use item"
+    for v in r.violations:
+        v.rule = "C13.R15"
+    return r
+
+
 def rules(ctx):
     F = ctx["F"]
-    return [rule_r1(F), rule_r2(F), rule_r3(F), rule_r4(F), rule_r5(F), rule_r6(F), rule_r7(F), rule_r8(F), rule_r9(F), rule_r10(F), rule_r11(F), rule_r12(F), rule_r13(F), rule_r14(F, ctx.get("FM"))]
+    return [rule_r1(F), rule_r2(F), rule_r3(F), rule_r4(F), rule_r5(F), rule_r6(F), rule_r7(F), rule_r8(F), rule_r9(F), rule_r10(F), rule_r11(F), rule_r12(F), rule_r13(F), rule_r14(F, ctx.get("FM")), rule_r15(F)]
